@@ -221,7 +221,7 @@ Definition call_cop (dec : list byte -> dres) (j : N) (req : req_res) (v : vmst)
                        end
                    end
             else if ty =? COP_MSG_FFI_ERROR then
-              let el := N.min l 255 in
+              let el := N.min l (VM_EXT_ERR_SIZE - 1) in
               if el =? 0 then Go (CErr (EMsg [])) v w''
               else match os_read (LPay j) el w'' with
                    | RHang w3 => Stop (FHang (LPay j)) w3
@@ -264,6 +264,24 @@ Fixpoint run_calls (dec : list byte -> dres) (reqs : list req_res) (j done : N) 
 Definition init_world (scripts : list script) (ign : bool) : world := mkWorld None [] scripts ign.
 Definition run (dec : list byte -> dres) (ign : bool) (scripts : list script) (reqs : list req_res) : outcome :=
   run_calls dec reqs 1 0 vm_none (init_world scripts ign).
+
+(* ---- what the user sees on stderr when an extern call fails with a text the CO-PROCESS chose (FFI_ERROR).
+   The text is DATA: vm_ffi_call_cop copies at most VM_EXT_ERR_SIZE - 1 bytes of it into ext_err and terminates them with NUL;
+   TRAP_EXTERN_CALL reports vm_error(.., "<VM_FFI_ERR_PREFIX>%s", ext_err) into error_msg[VM_ERROR_MSG_SIZE] (vsnprintf: cut to
+   one byte less); main prints "Runtime error: Not implemented\n" and "  %s\n" of that buffer.  So stderr is a fixed prefix,
+   the text up to its first NUL (C string), cut, and a newline -- no byte of the text is interpreted.  (The format literal and
+   both sizes are generated from the sources; a report whose format is not a literal is refused by the translator.) *)
+Fixpoint cstr (m : list byte) : list byte :=
+  match m with [] => [] | b :: r => if b =? 0 then [] else b :: cstr r end.
+Definition runtime_error_line : list byte :=      (* "Runtime error: Not implemented\n" *)
+  [82;117;110;116;105;109;101;32;101;114;114;111;114;58;32;78;111;116;32;105;109;112;108;101;109;101;110;116;101;100;10].
+Definition error_msg_of_text (t : list byte) : list byte :=
+  firstn (N.to_nat (VM_ERROR_MSG_SIZE - 1)) (VM_FFI_ERR_PREFIX ++ cstr t).
+Definition stderr_of_text (t : list byte) : list byte :=
+  runtime_error_line ++ [32; 32] ++ error_msg_of_text t ++ [10].
+(* only for errors whose text came from the peer; the texts vm_ffi.c itself writes (co-process died ...) are not transcribed *)
+Definition stderr_report (e : err) : option (list byte) :=
+  match e with EMsg m => Some (stderr_of_text m) | _ => None end.
 
 (* a process the VM started that is still running when the VM is gone *)
 Definition child_running (c : child) : bool := negb (c_exited c).
